@@ -342,12 +342,74 @@ func runC12Malformed(c Case, res *CaseResult) {
 	res.Evals = n
 }
 
+// runC12DeepStack: a journal instruction only pops, so it must execute at every stack height up to the
+// limit exactly like its operand pops do.
+func runC12DeepStack(c Case, res *CaseResult) {
+	op := byte(c.P[0])
+	n := h.JournalPops[op]
+	var ops []*uint256.Int
+	switch op {
+	case h.RSVJNAL:
+		ops = []*uint256.Int{h.U(memJ), h.U(20), jTypStr}
+	case h.VSVJNAL:
+		ops = []*uint256.Int{h.U(memJ), h.U(20), h.U(0), jTypU}
+	case h.IRVVJNAL:
+		ops = []*uint256.Int{h.U(23), h.U(99), h.U(memJ), h.U(0), jTypU, jTypMap}
+	case h.IRVRJNAL:
+		ops = []*uint256.Int{h.U(23), h.U(98), h.U(memJ), jTypStr, jTypMap}
+	case h.IVVVJNAL:
+		ops = []*uint256.Int{h.U(23), h.U(97), h.U(5), h.U(0), jTypU, jTypMap}
+	case h.IVVRJNAL:
+		ops = []*uint256.Int{h.U(23), h.U(96), h.U(6), jTypStr, jTypMap}
+	case h.VVJNAL:
+		ops = []*uint256.Int{h.U(20), h.U(0), h.U(32), jTypU}
+	case h.VRJNAL:
+		ops = []*uint256.Int{h.U(22), jTypStr}
+	}
+	cnt := int64(0)
+	for _, total := range []int{n, 500, 1000, 1019, 1020, 1021, 1023, 1024} {
+		for _, f := range []h.Fork{h.Frontier, h.Berlin, h.Cancun} {
+			build := func(mode jmode) []byte {
+				a := h.NewAsm()
+				a.MstoreName(memJ, []byte("q"))
+				// registrations the instruction under test depends on (done at low stack height)
+				jop(a, mode, true, h.RSVJNAL, h.U(memJ), h.U(23), jTypMap)
+				jop(a, mode, true, h.VSVJNAL, h.U(memJ), h.U(20), h.U(0), jTypU)
+				jop(a, mode, true, h.RSVJNAL, h.U(memJ), h.U(22), jTypStr)
+				for i := 0; i < total-n; i++ {
+					a.Op(h.PC)
+				}
+				jop(a, mode, true, op, ops...)
+				a.Op(h.STOP)
+				return a.Bytes()
+			}
+			run := func(code []byte) h.InvokeResult {
+				fs := h.NewForkSession(h.BaseWorld([][]byte{code}), h.EnvSpec{Fork: f}, h.ForkOpts{})
+				return fs.Invoke(h.TxSpec{Entry: h.ECall, From: h.Sender, To: h.ContractAddr(0), Gas: 2_000_000})
+			}
+			ip, iq := run(build(jReal)), run(build(jPops))
+			cnt += 2
+			res.Count("deep_stack_pairs", 1)
+			res.Shape("deepstack", op, total, f, ip.ErrClass)
+			desc := fmt.Sprintf("journal op %#x executed with %d words on the stack (its %d operands included), fork %s", op, total, n, f)
+			if ip.Panic != "" {
+				res.Fail(Key("panic", "deepstack"), "panic: "+firstLine(ip.Panic), desc, clip(ip.PanicStk, 1200))
+				continue
+			}
+			if ip.ErrClass != iq.ErrClass {
+				res.Fail(Key("stack-height", fmt.Sprintf("op%02x", op)), fmt.Sprintf("the journal program ends with %q, the same program with pops with %q", ip.ErrClass, iq.ErrClass), desc)
+			}
+		}
+	}
+	res.Evals = cnt
+}
+
 func init() {
 	Register(&Prop{
 		ID:    "C12",
 		Level: "exploration",
 		Rule: "kind pair: a generated call tree (CALL/DELEGATECALL/CALLCODE/STATICCALL frames, static and non-static, reverting and halting frames, forks Frontier..Cancun) whose frames contain register+journal gadgets using all eight journal opcodes with well-formed operands is assembled twice: P with the journal byte followed by n-1 JUMPDEST bytes, P' with n POP bytes; both run on the real VM with full step recording; result, logs, post-state and every aligned step (pc, op, depth, full stack, memory, return-data buffer) must be identical, every journal step must cost the same non-zero constant, and (runs without exceptional halts) leftover(P')-leftover(P) = sum of (fee + (n-1) - 2n); " +
-			"kind malformed: per fork, 12 malformed operand sets (unregistered keys, offset 32, width 33, offset+width>32, huge offset, unknown parents, bad string encoding, name pointer / length / key pointer outside the frame's memory) x CALL/STATICCALL: the frame must halt with an error, use all its gas, have its effects reverted and the caller must see 0; a cross-case check requires ONE fee value over all forks; distinct_nontrivial = distinct event shapes of pairs with at least one journal step + malformed combinations",
+			"kind deepstack: every journal opcode at stack heights n..1024 on 3 forks must behave like its pops; kind malformed: per fork, 12 malformed operand sets (unregistered keys, offset 32, width 33, offset+width>32, huge offset, unknown parents, bad string encoding, name pointer / length / key pointer outside the frame's memory) x CALL/STATICCALL: the frame must halt with an error, use all its gas, have its effects reverted and the caller must see 0; a cross-case check requires ONE fee value over all forks; distinct_nontrivial = distinct event shapes of pairs with at least one journal step + malformed combinations",
 		Assumptions: []string{"programs are gas- and code-insensitive by construction (no GAS/CODECOPY/EXTCODE*, ample explicit call gas, no creates)", "well-formed = registered key, offset<=31, width<=32, offset+width<=32, valid string encoding (C09/C11 models)"},
 		Cases: func(seed uint64, tier string) []Case {
 			n := 400
@@ -361,12 +423,18 @@ func init() {
 			for f := h.Frontier; f <= h.Cancun; f++ {
 				cs = append(cs, Case{Kind: "malformed", P: []int64{int64(f)}})
 			}
+			for _, op := range allJournalOps {
+				cs = append(cs, Case{Kind: "deepstack", P: []int64{int64(op)}})
+			}
 			return cs
 		},
 		Run: func(c Case, tier string) (res CaseResult) {
-			if c.Kind == "pair" {
+			switch c.Kind {
+			case "pair":
 				runC12Pair(c, &res)
-			} else {
+			case "deepstack":
+				runC12DeepStack(c, &res)
+			default:
 				runC12Malformed(c, &res)
 			}
 			return
